@@ -77,6 +77,36 @@ def width_history(rng, tier, per_image_ops):
 
 
 class WireC09(L.WirePart):
+    def __init__(self):
+        self.classes = {}
+
+    def nontrivial_key(self, hist, impl_out):
+        # called once per history by the runner: also accumulates the state-class histogram of the evidence file
+        origin = {}
+        for op, o in zip(hist, impl_out):
+            w = op.split()
+            if w[0] in ("compact",):
+                origin[w[2]] = "compact-of-compact" if w[1] in origin else "compact"
+            elif w[0] in ("union", "inter", "anotb", "load", "fromtheta"):
+                origin[w[1] if w[0] != "fromtheta" else w[2]] = w[0]
+            elif w[0] == "ser":
+                d = L.parse_img(o)
+                if not d:
+                    continue
+                c = d["content"].split()
+                n = int(c[7]) if c[0] == "A" else int(c[6])
+                empty, ordered, est = c[1] == "1", c[2] == "1", c[3] == "1"
+                cls = "empty" if empty else ("zero-retained" if n == 0 else ("estimation" if est else ("single" if n == 1 else "exact")))
+                for k in ("kind:" + d["kind"], "state:" + cls, "ordered:" + str(int(ordered)), "origin:" + origin.get(w[1], "?"),
+                          "seed:" + ("9001" if d["seed"] == "9001" else "other"), "continued:" + str(int(len(w) > 3))):
+                    self.classes[k] = self.classes.get(k, 0) + 1
+                if d["kind"] == "theta_v4" and len(d["hex"]) > 8 and d["hex"][2:4] == "04":
+                    k = "v4-entry-bits:%d" % int(d["hex"][6:8], 16)
+                    self.classes[k] = self.classes.get(k, 0) + 1
+        if getattr(self, "_rep", None) is not None:
+            self._rep.cov.setdefault("state_classes", {})[self.name] = dict(sorted(self.classes.items()))
+        return super().nontrivial_key(hist, impl_out)
+
     def generate(self, rng, tier):
         n = self.nhist[0] if tier == "quick" else self.nhist[1]
         hs = []
@@ -84,7 +114,7 @@ class WireC09(L.WirePart):
             fam = self.fams[i % len(self.fams)]
             hs.append(L.gen_history(rng, tier, fam, ser_ops))
         if "theta" in self.fams:
-            for i in range(4 if tier == "quick" else 12):
+            for i in range(4 if tier == "quick" else 30):
                 hs.append(width_history(rng, tier, ser_ops))
         return hs
 
@@ -92,6 +122,8 @@ class WireC09(L.WirePart):
         bad = []
         for i, (op, o) in enumerate(zip(hist, impl_out)):
             w = op.split()
+            if o.strip() in ("no-such-object", "bad-op"):
+                continue      # malformed history (dangling object id, e.g. after delta debugging): says nothing about the library
             if o.strip() == "throw":
                 bad.append(("%s/unexpected-throw/%s" % (self.name, w[0]), op[:120], i))
                 continue
@@ -117,25 +149,25 @@ class WireC09(L.WirePart):
                     es = [int(x) for x in c[8:] if x.isdigit()]
                     if es != sorted(es):
                         bad.append(("%s/ordered-not-sorted" % d["kind"], o[:160], i))
-        return bad
+        return L.cap_unknown(bad, "C09")
 
 
 class ThetaPart(WireC09):
     name = "theta"
     fams = ("theta",)
-    nhist = (24, 150)
+    nhist = (24, 400)
 
 
 class TuplePart(WireC09):
     name = "tuple"
     fams = ("tf64", "ti64", "tstr", "tcst")
-    nhist = (24, 160)
+    nhist = (24, 400)
 
 
 class AodPart(WireC09):
     name = "aod"
     fams = ("aod",)
-    nhist = (12, 80)
+    nhist = (12, 200)
 
 
 class BitPackPart(Part):
@@ -246,6 +278,8 @@ class C09Theta(Spec):
         # is the known deviation of pack_bits_19 still present? (Gen/BitPackFinding.lean compiles iff it is)
         ok, out, dt = core.lake_build(["DSProofs.Gen.BitPackFinding"])
         rep.cov["pack_bits_19_deviation_present"] = bool(ok)
+        for p in PARTS:
+            p._rep = rep
 
 
 SPEC = C09Theta()
